@@ -67,6 +67,8 @@ class C07(ScanCheck):
         if rng.random() < 0.3:
             mb = in_range_index(rng, r, want_sub=True)
         nadd_mode = rng.choice(["full", "full", "none", "short", "long"])
+        if n >= 2000:
+            nadd_mode = "full"          # the few very large scenarios must exercise the large positions
         outs = []
         feats = set()
         positions = set(BOUNDARY_POS + (BOUNDARY_POS_THOROUGH if thorough else []))
